@@ -587,6 +587,14 @@ func (vc *VC) equal(x, y Val) string {
 				}
 				return vc.free("ptrcmp", "Bool")
 			}
+		case *types.Slice:
+			// slices compare with nil only: a slice is nil iff it has no backing array
+			if y.T == "(mk-slice 0 0 0 0)" {
+				return sEq(sApp("s-arr", x.T), "0")
+			}
+			if x.T == "(mk-slice 0 0 0 0)" {
+				return sEq(sApp("s-arr", y.T), "0")
+			}
 		case *types.Interface:
 			// comparing with nil interface is exact; other comparisons compare tag and payload
 			if yt := y.Typ; yt != nil && !types.IsInterface(yt) && x.Typ != nil && types.IsInterface(x.Typ) {
